@@ -17,15 +17,18 @@
    - events: an entry stays buffered until a step of its simulator begins at or after its due time (no loss), that step
      is given it and it never comes back (no duplication; entries are numbered), and after BEGIN(j,t) no entry that is
      or becomes buffered for j is due at or before t - so an event is delivered by the FIRST step at or after its due time.
-   Missing (C03_partial): the equality with the reference semantics for pushed persistent data (cache off) and for the
-   persistent memory (most recent among the delivered values: the order of the timed buffer); scenarios with groups
+   - pushed values and the persistent memory, per step (Sched/Persist.v): a slot no pulled connection writes is given the
+     last due entry in (due time, arrival number) order, else the registers' content; the memory then holds what the
+     step was given.
+   Missing (C03_partial): chaining the per-step memory theorem over a run into "the most recent value ever due" for
+   pushed persistent data (cache off); scenarios with groups
    (sub-steps) for the strictness premises - there the data plane is keyed by the integer time only (known finding F11).
    "Produced so far" is "ever produced": C03_later_outputs_are_not_due - every output a provider
    delivers after the consumer's BEGIN(j,t) has a delayed output time after t (from C01's guard, monotone progress and
    the lower-bound invariant). *)
 From Coq Require Import ZArith List Bool Arith.
 Import ListNotations.
-From MV Require Import Time.Spec Static.Build Sched.Timing Sched.Inv Sched.Main Sched.Certify Sched.Quiet Sched.Plane Sched.DataP Sched.PruneRun Sched.Final Sched.Later Sched.PullRun Sched.EventRun.
+From MV Require Import Time.Spec Static.Build Sched.Timing Sched.Inv Sched.Main Sched.Certify Sched.Quiet Sched.Plane Sched.DataP Sched.PruneRun Sched.Final Sched.Later Sched.PullRun Sched.EventRun Sched.SetData Sched.Persist.
 Open Scope Z_scope.
 
 Theorem C03_partial_events_exactly_once_never_early : forall dt ds i step inp ds',
@@ -198,3 +201,36 @@ Example C03_events_nonvacuous :
         [Some []; Some []; Some [(1%nat, [(0%nat, Some 7)])]; Some [(1%nat, [(0%nat, Some 8)])]]
   | _ => False end.
 Proof. vm_compute. repeat split; try reflexivity. discriminate. Qed.
+
+(* ---- pushed values and the persistent memory, one step ---- *)
+(* for a slot (attribute a, source k) that no pulled connection writes: the step is given the value of the LAST due
+   buffer entry for the slot - the due entry with the largest (due time, arrival number), C03_last_due_entry_is_the_latest -
+   and if none is due what the registers hold (a set_data value, else the remembered value or the initial data);
+   afterwards the memory of an existing slot holds what the step was given *)
+Theorem C03_pushed_value_is_latest_due_or_remembered : forall dt ds i step inp ds' a k,
+  get_input_data dt ds i step = (inp, ds') -> not_pulled dt i a k ->
+  let due := sort_b (filter (fun e => btime e <=? step) (buffer (ds i))) in
+  iget a k inp = match last_for a k due with
+                 | Some e => Some (Some (bval e))
+                 | None => iget a k (merge_all_i (setdata (ds i)) (persist (ds i))) end /\
+  iget a k (persist (ds' i)) = match iget a k (persist (ds i)) with
+                               | Some old => Some (match iget a k inp with Some new => new | None => old end)
+                               | None => None end.
+Proof. exact pushed_value_and_memory. Qed.
+Print Assumptions C03_pushed_value_is_latest_due_or_remembered.
+Theorem C03_last_due_entry_is_the_latest : forall a k l e, last_for a k (sort_b l) = Some e ->
+  In e l /\ slot a k e = true /\ forall x, In x l -> slot a k x = true -> ble x e \/ x = e.
+Proof. exact last_due_is_latest. Qed.
+Print Assumptions C03_last_due_entry_is_the_latest.
+
+(* ---- tie: the dict-merging helpers of mosaik/internal_util.py, regenerated from the source on every run ---- *)
+From MV Require Gen.InternalUtil Sched.MergeTie.
+Theorem C03_generated_merge_all_is_the_model : forall t o,
+  merge_all_i t o = Gen.InternalUtil.merge_all (fun tm m => Gen.InternalUtil.merge_all (fun v_new _ => v_new) tm m) t o.
+Proof. exact Sched.MergeTie.tie_merge_all. Qed.
+Print Assumptions C03_generated_merge_all_is_the_model.
+Theorem C03_generated_merge_existing_is_the_model : forall p i, NoDup (map fst p) -> (forall a m, In (a, m) p -> NoDup (map fst m)) ->
+  merge_existing_i p i =
+  Gen.InternalUtil.merge_existing (fun m im => Gen.InternalUtil.merge_existing (fun _ v_new => v_new) m im) p i.
+Proof. exact Sched.MergeTie.tie_merge_existing. Qed.
+Print Assumptions C03_generated_merge_existing_is_the_model.
